@@ -647,7 +647,7 @@ pub fn run(run: &mut Run) {
         and must render like the model's ISI (defaults: name insim.rs, empty password, NUL prefix, interval 0, request id 0, UDP port = \
         configured local port or 0). All 1024 flag states via the individual setters (complete). Connect: a loopback TCP listener / UDP \
         peer receives the handshake of connect_blocking and connect_async: exactly one ISI frame equal to the 44-byte image laid out from the documented structure and the model of the configuration (not by the library's encoder); relay() calls earlier in the sequence and any other setter called after the transport selection must not \
-        disturb it, and an interval beyond the 16-bit field must be refused (nothing sent), never sent as another value. \
+        disturb it, and an interval beyond the 16-bit field must be refused (nothing sent), never sent as another value; every builder is connected twice (same handshake), a quarter of the UDP connects run while another socket holds the configured local port (refused with nothing sent, or the configured ISI), and every other connect follows refused encodes by another codec of the thread. \
         Non-trivial = at least two builder calls (model part), every connect case."
         .into();
     run.assumptions = vec![
